@@ -15,7 +15,9 @@ RULE = ("histories of coefficient requests mixing all spacecraft of the shipped 
         "compared with the pure function of (spacecraft, custom, file content) and with the Lean model's source map; the "
         "class-level defaults are compared with the file after every history. A case = one request in a history; "
         "non-trivial = the request differs from the previous one in file, spacecraft or custom set; distinct by "
-        "(history index, position)")
+        "(history index, position). READER ROUTES: small passes of the four reader classes calibrated with the custom set and the file "
+        "named through every option route (calibration_parameters with one or both entries, the legacy keywords alone and together, empty "
+        "custom sets); the coefficient object built by the calibration is captured and compared with the pure function")
 
 VIS = ("channel_1", "channel_2", "channel_3a")
 IR = ("channel_3b", "channel_4", "channel_5")
@@ -55,6 +57,86 @@ def perturb(v, rng):
             w = w[:-1] + rng.choice(["+02:00", "-05:30", "+00:00", "+13:45"])
         return w
     return v
+
+
+def reader_routes(ctx, tables, paths, versions, cur3, p3):
+    """The coefficients USED by a reader: every way the reader options name a custom set and a coefficient file (the
+    `calibration_parameters` dictionary with one or both entries, the legacy keywords `custom_calibration` /
+    `calibration_file` alone and together) must hand the calibration exactly (spacecraft, custom, file); the coefficient
+    object the calibration builds is captured and compared with the pure function."""
+    import io
+    import random
+    from pygac.calibration import noaa
+    from . import filegen
+    rng = ctx.rng
+    real = noaa.Calibrator
+    built = {}
+    for k in range(ctx.n(24, 160)):
+        fmt = ["klmGac", "podGac", "klmLac", "podLac"][k % 4 if k % 8 < 6 else 0]
+        route = ["params-both", "legacy-both", "legacy-custom", "legacy-file", "params-file", "params-custom", "legacy-both-empty",
+                 "params-both-empty"][k % 8]
+        if fmt not in built:
+            pb = filegen.PassBuilder(ctx, fmt, 7, random.Random(repr(("c16r", fmt))))
+            built[fmt] = (pb.tobytes(), pb.dsname)
+        data, name = built[fmt]
+        f = rng.choice([1, 2, 3])
+        if paths[f] == p3:
+            f = cur3
+        if route in ("legacy-custom", "params-custom"):
+            f = 0
+        probe = filegen.reader_class(fmt)
+        sat = probe.spacecraft_names[filegen.FMT[fmt]["sat_id"]]
+        keys = sorted(tables[f][sat])
+        custom = {}
+        if route not in ("legacy-file", "params-file", "legacy-both-empty", "params-both-empty"):
+            for key in rng.sample(keys, rng.choice([1, 2])):
+                custom[key] = perturb(copy.deepcopy(tables[f][sat][key]), rng)
+        kw = {"params-both": dict(calibration_parameters=dict(custom_coeffs=copy.deepcopy(custom), coeffs_file=paths[f])),
+              "params-both-empty": dict(calibration_parameters=dict(custom_coeffs={}, coeffs_file=paths[f])),
+              "params-file": dict(calibration_parameters=dict(coeffs_file=paths[f])),
+              "params-custom": dict(calibration_parameters=dict(custom_coeffs=copy.deepcopy(custom))),
+              "legacy-both": dict(custom_calibration=copy.deepcopy(custom), calibration_file=paths[f]),
+              "legacy-both-empty": dict(custom_calibration={}, calibration_file=paths[f]),
+              "legacy-custom": dict(custom_calibration=copy.deepcopy(custom)),
+              "legacy-file": dict(calibration_file=paths[f])}[route]
+        got = []
+
+        class _Spy:
+            def __call__(self, *a, **kws):
+                c = real(*a, **kws)
+                got.append(c)
+                return c
+
+            def __getattr__(self, nm):
+                return getattr(real, nm)
+        spy = _Spy()
+        payload = {"route": route, "fmt": fmt, "file": f, "custom_keys": sorted(custom)}
+        noaa.Calibrator = spy
+        try:
+            with warnings.catch_warnings():
+                warnings.simplefilter("ignore")
+                r = filegen.make_reader(ctx, fmt, data=data, name=name, **kw)
+                ds = r.get_calibrated_dataset()
+        except Exception as e:
+            ctx.violation("reader options %s (%s, file %d, custom %s): calibration raised %s: %s" % (route, fmt, f, sorted(custom), type(e).__name__, e),
+                          payload, cls="reader-route:raises:%s" % type(e).__name__)
+            continue
+        finally:
+            noaa.Calibrator = real
+        merged = dict(tables[f][sat])
+        merged.update(custom)
+        want = materialise(merged, sat, None if custom else versions[f])
+        if len(got) != 1:
+            ctx.violation("reader options %s: the calibration built %d coefficient objects" % (route, len(got)), payload, cls="reader-route:count")
+            continue
+        bad = [fld for fld in want if not same(getattr(got[0], fld), want[fld])]
+        if not bad and ds.attrs.get("calib_coeffs_version") != want["version"]:
+            bad = ["calib_coeffs_version attribute"]
+        if bad:
+            ctx.violation("reader built with %s (%s, %s, file %d, custom keys %s): the coefficients used differ from the pure function of "
+                          "(spacecraft, custom, file content) in %s" % (route, fmt, sat, f, sorted(custom), bad), payload,
+                          cls="reader-route:%s" % route)
+        ctx.case(("reader-route", k), nontrivial=True, branch="reader-route/" + route)
 
 
 def run(ctx):
@@ -267,6 +349,10 @@ def run(ctx):
                 drv[-len(tokens)] = (drv[-len(tokens)][0], drv[-len(tokens)][1], hist_payload, drv_line)
             if h < 3:
                 ctx.sample({"history": hist_payload})
+    finally:
+        Calibrator.default_coeffs, Calibrator.default_file, Calibrator.default_version = saved
+    try:
+        reader_routes(ctx, tables, paths, versions, state3["cur"], p3)
     finally:
         Calibrator.default_coeffs, Calibrator.default_file, Calibrator.default_version = saved
     if not ctx.driver_ok:
